@@ -331,7 +331,7 @@ def xthread_case(variant):
     return p, p.block(ss)
 
 
-def taillevel_case(ntail, query, rng):
+def taillevel_case(ntail, query, rng, beyond=None):
     """levels beyond activations lost to proper tail calls: outer calls f, f calls the first link, ntail links tail-call on
     to k, k asks about level 1, the level of f (2 + ntail) and the level of outer (3 + ntail)"""
     p = Prog()
@@ -358,4 +358,11 @@ def taillevel_case(ntail, query, rng):
     ss.append(p.localfunction("outer", p.func(["L"], p.block([p.local(["om"], [p.str("in-outer")]), p.local(["r2"], [p.call(p.id("f"), [p.id("L")])]), p.ret([p.id("r2"), p.id("om")])]))))
     for L in levels:
         ss.append(p.emit([p.str("run"), p.num(L), p.call(p.id("pcall"), [p.id("outer"), p.num(L)])]))
+    if beyond == "thread":        # outer is the body of a coroutine: level 4 + ntail has no activation in that thread
+        for L in (3 + ntail, 4 + ntail, 5 + ntail):
+            ss.append(p.emit([p.str("co"), p.num(L), p.call(p.field(p.id("coroutine"), "resume"), [p.call(p.field(p.id("coroutine"), "create"), [p.id("outer")]), p.num(L)])]))
+    elif beyond == "chunk":       # the chunk is level 4 + ntail; one further there is nothing: the message is raised as it is
+        ss.append(p.callstat(p.call(p.id("outer"), [p.num(5 + ntail)])))
+    elif beyond == "chunk-level": # the chunk's own level: the position of this call statement
+        ss.append(p.callstat(p.call(p.id("outer"), [p.num(4 + ntail)])))
     return p, p.block(ss)
